@@ -26,16 +26,23 @@ Proof.
   cbn [filter]. unfold key_ok in H1. rewrite H1. f_equal. apply IH, H2.
 Qed.
 
-Lemma conv_var_spec dflt v : dom_var dflt v = true -> conv_var dflt v = spec_var v.
+(* masked variables with ANY fill value: the value written into masked cells is the one declared as
+   _FillValue, so the reader masks it - whatever missing_value / fill_value / array fill are *)
+Lemma fill_always_consistent dflt v c : chosen_fill v = Some c -> fill_consistent dflt v = true.
+Proof.
+  intros H. unfold fill_consistent, eff_fill, data_fill. rewrite H. cbn [opt_is]. rewrite Z.eqb_refl.
+  rewrite orb_true_r. reflexivity.
+Qed.
+
+Lemma conv_var_spec dflt v : dom_var v = true -> conv_var dflt v = spec_var v.
 Proof.
   unfold dom_var, conv_var, spec_var. intros H.
   apply andb_true_iff in H as [H H3]. apply andb_true_iff in H as [H1 H2].
   rewrite (conv_attrs_id _ _ H1). f_equal. apply load_store_cells; [|exact H3].
-  unfold fill_consistent in H2. apply orb_true_iff in H2 as [H2|H2].
-  - apply orb_true_iff in H2 as [H2|H2].
-    + left. apply negb_true_iff in H2. exact H2.
-    + right. rewrite H2. reflexivity.
-  - right. rewrite H2. apply orb_true_r.
+  unfold masked_has_fill in H2. apply orb_true_iff in H2 as [H2|H2].
+  - left. apply negb_true_iff in H2. exact H2.
+  - right. destruct (chosen_fill v) as [c|] eqn:E; [|discriminate].
+    unfold eff_fill, data_fill. rewrite E. cbn [opt_is]. rewrite Z.eqb_refl. reflexivity.
 Qed.
 
 Lemma conv_dims_id vs ds :
@@ -49,7 +56,7 @@ Proof.
 Qed.
 
 (* the whole file: every number of dimensions, attributes, variables, cells *)
-Lemma save_open_id dflt f : dom dflt f = true -> impl_save_open dflt f = spec_save_open f.
+Lemma save_open_id dflt f : dom f = true -> impl_save_open dflt f = spec_save_open f.
 Proof.
   unfold dom, impl_save_open, spec_save_open. intros H.
   apply andb_true_iff in H as [H H3]. apply andb_true_iff in H as [H1 H2].
@@ -66,20 +73,6 @@ Lemma fill_precedence v :
   /\ (p_mv v = None -> p_fv v = None -> p_masked v = false -> chosen_fill v = p_hid v).
 Proof.
   unfold chosen_fill. repeat split; intros; repeat match goal with H : _ = _ |- _ => rewrite H end; reflexivity.
-Qed.
-
-(* masked cells are written with the explicit fill_value attribute although _FillValue on disk is
-   missing_value: with both attributes set and different, every mask is lost *)
-Lemma fill_conflict_loses_mask dflt v m f n ds :
-  p_mv v = Some m -> p_fv v = Some f -> f <> m -> p_dims v = n :: ds ->
-  forall cells, p_cells v = cells ->
-  v_cells (conv_var dflt v) = map (fun c => match c with Some x => if x =? m then None else Some x | None => Some f end) cells.
-Proof.
-  intros Hm Hf Hne Hd cells Hc. unfold conv_var; cbn [v_cells].
-  unfold data_fill, eff_fill, chosen_fill. rewrite Hm, Hf, Hd, Hc. unfold load_cells, store_cells. rewrite map_map.
-  apply map_ext. intros [x|]; cbn [opt_is]; rewrite ?orb_diag.
-  - reflexivity.
-  - assert (E : f =? m = false) by (apply Z.eqb_neq; exact Hne). rewrite E. reflexivity.
 Qed.
 
 Definition nm (l : list Z) : name := l.
